@@ -193,3 +193,24 @@ Theorem C16_inplace_dag_refuted :
     = Some (tr (sym_T f31_rules f31_toks) true f31_tree).
 Proof. exact inplace_dag_refuted. Qed.
 Print Assumptions C16_inplace_dag_refuted.
+
+(* NOT PROVED (kept as a full statement, round 12): on tree-shaped heaps (an stree laid out by InPlaceDag.alloc: no
+   object is referenced twice) the heap-level Transformer_InPlace is the tree-level model of Shape/Transform.v, for
+   transformers that commute with the embedding of values.  Validated on every run by the stream dag-coq (tree-shaped
+   heaps: lark's value = Coq heap model = documented value); the missing piece is the invariant of the reversed
+   breadth-first order of iter_q on alloc-heaps (every object once, children before parents), which
+   Shape/InPlace_proofs.v proves for the path-keyed model. *)
+Definition C16_inplace_tree_inputs_agree_full_statement : Prop :=
+  forall (T : transformer) (DT : dtransformer) (vt : bool) (n : string) (ch : list stree),
+    (forall name vs, match on_rule T name, d_rule DT name with
+                     | Some f, Some g => g (map vinj vs) = vinj (f vs)
+                     | None, None => True
+                     | _, _ => False
+                     end) ->
+    (forall ty, match on_token T ty, d_tok DT ty with
+                | Some f, Some g => forall a b, g a b = vinj (f a b)
+                | None, None => True
+                | _, _ => False
+                end) ->
+    exists H', transform_ip_dag DT vt (S (tcount (Tr n ch))) (alloc 0 (Tr n ch)) 0
+               = Some (H', vinj (tr T vt (Tr n ch))).
